@@ -500,3 +500,20 @@ pub fn finish(mut rep: Report, ctx: &Ctx, known: &KnownFindings) -> i32 {
     );
     status
 }
+
+/// Error rendered as "<Kind>|<message>": the kind comes from the DSError variant (so that a reworded
+/// message does not matter), "other" when the error is not a DSError.
+pub fn estr(e: dnssector::Error) -> String {
+    use dnssector::DSError;
+    let kind = match e.downcast_ref::<DSError>() {
+        Some(DSError::VoidRecord) => "VoidRecord",
+        Some(DSError::PacketTooLarge) => "PacketTooLarge",
+        Some(DSError::PacketTooSmall) => "PacketTooSmall",
+        Some(DSError::InvalidName(_)) => "InvalidName",
+        Some(DSError::InvalidPacket(_)) => "InvalidPacket",
+        Some(DSError::ParseError) => "ParseError",
+        Some(_) => "OtherDSError",
+        None => "other",
+    };
+    format!("{}|{}", kind, e)
+}
